@@ -101,7 +101,9 @@ class Ref:
         env = {"t": pt["t"], "time": pt["t"]}
         for n in self.states + self.params + list(self.missing):
             env[n] = pt[n]
-        for n in self.inter:
+        for n in self.monitors:  # intermediates and the other state derivatives (a rate may read another derivative)
+            if n == f"d{state}_dt":
+                continue
             try:
                 env[n] = evl.name(n)[0]
             except L.Skip:
@@ -510,14 +512,17 @@ def bounds(tier):
                                                   "parameter value expression", "explicit t"]}
 
 
-def e3_specs(tier, variants=True):
+def e3_specs(tier, variants=True, deep=False):
     """-> list of (key, spec).  All shapes x namings; the variant dimensions (order, layout, unused, parameter-value
     expression, t) are applied to every shape whose dependency sets are singletons or empty (stated bound)."""
     out = []
-    shapes = e3_shapes(tier)
+    # the deep shape family (two-intermediate shapes with <= 2 dependencies, three-intermediate chains: 17 431 shapes) is only used where one
+    # model costs milliseconds (C01); everywhere else the thorough tier differs from quick in the other dimensions (namings, grids, options)
+    shapes = e3_shapes("thorough" if (deep and tier != "quick") else "quick")
+    tier = tier if (deep or tier == "quick") else "quick+"
     for si, sh in enumerate(shapes):
         for nmg in range(len(NAMINGS)):
-            if tier != "quick" and nmg > 0 and len(sh[0]) > 1:
+            if tier == "thorough" and nmg > 0 and len(sh[0]) > 1:
                 continue  # thorough: the second naming for the shapes with <= 1 intermediate (and for every variant below)
             out.append((f"E3|{si:05d}|n{nmg}|def|flat|-", shape_spec(sh, nmg)))
     if variants:
@@ -544,8 +549,8 @@ def e3_specs(tier, variants=True):
     return out
 
 
-def model_items(tier, ID, variants=True, group=12):
-    specs = degenerate_specs() + e3_specs(tier, variants)
+def model_items(tier, ID, variants=True, group=12, deep=False):
+    specs = degenerate_specs() + e3_specs(tier, variants, deep=deep)
     items = []
     for ch in E.chunks(specs, group):
         items.append({"key": f"{ch[0][0]}..{ch[-1][0]}", "kind": "models", "specs": [[k, s] for k, s in ch],
@@ -656,6 +661,15 @@ def degenerate_specs():
                                    ("dm_dt", L.bin_("-", v("a1"), v("m"))), ("dmL_dt", L.bin_("-", v("a_"), L.bin_("*", v("mL"), v("k")))), ("dm__dt", L.bin_("-", v("a"), L.bin_("*", n("0.25"), v("m_"))))])),
         ("deg|prefix-names-2", spec([("x", n("0.5")), ("x2", n("1.5")), ("x_1", n("2.5")), ("xA", n("-0.5"))], [("p", n("0.5"))],
                                     [("dx_dt", L.bin_("-", v("x2"), v("x"))), ("dx2_dt", L.bin_("*", v("p"), v("x_1"))), ("dx_1_dt", L.bin_("-", v("xA"), L.bin_("*", n("2"), v("x_1")))), ("dxA_dt", L.bin_("+", v("x"), v("p")))])),
+        # state derivatives read by other derivatives and by intermediates (monitored total current `i_tot = -Cm*dv_dt`)
+        ("deg|derivative-in-derivative", spec([("x", n("1.0")), ("y", n("2.0"))], [("p", n("0.5"))],
+                                              [("dx_dt", L.bin_("*", v("p"), L.bin_("*", v("x"), v("y")))), ("dy_dt", L.bin_("-", L.bin_("*", n("2"), v("dx_dt")), v("y")))])),
+        ("deg|derivative-in-intermediate", spec([("x", n("1.0")), ("y", n("2.0"))], [("p", n("0.5"))],
+                                                [("dx_dt", L.bin_("-", L.bin_("*", v("p"), v("y")), v("x"))), ("i_tot", L.bin_("*", L.neg(v("p")), v("dx_dt"))),
+                                                 ("j", L.bin_("+", v("i_tot"), v("x"))), ("dy_dt", L.bin_("-", v("j"), L.bin_("*", v("y"), v("y"))))])),
+        ("deg|derivative-only-monitored", spec([("x", n("1.0")), ("y", n("2.0"))], [("p", n("0.5"))],
+                                               [("dx_dt", L.bin_("-", L.bin_("*", v("p"), v("y")), v("x"))), ("i_tot", L.bin_("*", L.neg(v("p")), v("dx_dt"))),
+                                                ("dy_dt", L.bin_("-", v("x"), v("y")))])),
         ("deg|long-names", spec([("membrane_potential_of_the_cell", n("1.0"))], [("a_rather_long_parameter_name_0123456789", n("0.5"))],
                                 [("dmembrane_potential_of_the_cell_dt", L.bin_("*", L.neg(v("a_rather_long_parameter_name_0123456789")), v("membrane_potential_of_the_cell")))])),
     ]
